@@ -372,6 +372,10 @@ func ApplyHeader(s State, bh types.BlockHeader, targetTimestamp time.Time) State
 	if s.Index.Height > 0 && s.Index.ID != bh.ParentID {
 		panic("consensus: cannot apply non-child block")
 	}
+	// a header's identity and encoding cover whole seconds only; a timestamp
+	// that has not been through the encoding yet must not lead elsewhere
+	bh.Timestamp = time.Unix(bh.Timestamp.Unix(), 0)
+	targetTimestamp = time.Unix(targetTimestamp.Unix(), 0)
 
 	next := s
 	if bh.ParentID == (types.BlockID{}) {
